@@ -2,7 +2,8 @@
    seq   : prop_ok  = the implementation's results are those of the specification QSpec
                       (Pending compared up to order) and the heap bookkeeping is intact;
            model_eq = they are exactly those of the Tier A heap model (Pending in array order).
-   conc* : prop_ok  = the recorded history is linearizable w.r.t. QSpec (proved checker);
+   conc* : prop_ok  = the recorded history is linearizable w.r.t. QSpec (a linearization found by the
+                      driver's untrusted search passes the PROVED certificate check, else the proved searches);
                       Pending results are normalised to the specification's order first;
            model_eq = the history consists of exactly the calls of the input programs.
    probe : prop_ok  = the call did not run while the harness held the mutex;
@@ -47,6 +48,47 @@ let parse_res s =
             | [k; v] -> (n_of_hex k, n_of_hex v) | _ -> raise Exit) (String.split_on_char ',' l)))
         with Exit -> None)
      | _ -> None)
+
+(* UNTRUSTED search for a linearization (its answer is only used through the proved certificate
+   check): depth-first over "which pending record comes next", candidates in the order of the
+   array (hint: return stamps), a hash table of the (placed set, specification state) pairs
+   already explored.  Returns the positions of the records in linearization order. *)
+let lin_find (step : 'st -> 'op -> 'st * 'res) (key : 'st -> string) (s0 : 'st)
+    (h : (int * int * 'op * 'res) array) (budget : int) : int list option =
+  let n = Array.length h in
+  let visited = Hashtbl.create 4096 in
+  let placed = Bytes.make n '0' in
+  let nodes = ref 0 in
+  let result = ref None in
+  let rec go st cnt acc =
+    if !result <> None || !nodes > budget then ()
+    else if cnt = n then result := Some (List.rev acc)
+    else begin
+      incr nodes;
+      let minret = ref max_int in
+      for i = 0 to n - 1 do
+        if Bytes.get placed i = '0' then (let (_, r, _, _) = h.(i) in if r < !minret then minret := r)
+      done;
+      for i = 0 to n - 1 do
+        if !result = None && Bytes.get placed i = '0' then begin
+          let (c, _, op, res) = h.(i) in
+          if c <= !minret then begin
+            let (st', r) = step st op in
+            if r = res then begin
+              Bytes.set placed i '1';
+              let k = Bytes.to_string placed ^ key st' in
+              if not (Hashtbl.mem visited k) then begin
+                Hashtbl.add visited k ();
+                go st' (cnt + 1) (i :: acc)
+              end;
+              Bytes.set placed i '0'
+            end
+          end
+        end
+      done
+    end in
+  go s0 0 [];
+  !result
 
 let prog s = if s = "-" then [] else String.split_on_char ',' s
 
@@ -114,14 +156,20 @@ let check inp obs =
         (* the verdict does not depend on the order of the list; the search tries candidates in list
            order, and the order of the return stamps is close to the order of the lock acquisitions *)
         let h = List.stable_sort (fun a b -> compare (int_of_n a.o_ret) (int_of_n b.o_ret)) h in
-        match pq_lin (n_of_int 2000000) h with
+        let harr = Array.of_list (List.map (fun e -> (int_of_n e.o_call, int_of_n e.o_ret, e.o_op, e.o_res)) h) in
+        let key (q : (n * n) list) = String.concat "," (List.map (fun (i, p) -> hex_of_n i ^ "=" ^ hex_of_n p) q) in
+        let cert = (match lin_find q_step key [] harr 1500000 with
+            | Some l -> pq_cert h (List.map (fun i -> drv_nat_of_n (n_of_int i)) l)
+            | None -> false) in
+        if cert then (true, "")
+        else
+        match pq_lin_complete (n_of_int 3000000) h with
         | Some true -> (true, "")
-        | r ->
-          (match pq_lin_complete (n_of_int 3000000) h with
+        | Some false -> (false, "history is not linearizable (complete search, proved)")
+        | None ->
+          (match pq_lin (n_of_int 30000) h with
            | Some true -> (true, "")
-           | Some false -> (false, "history is not linearizable (complete search, proved)")
-           | None -> (false, if r = None then "linearizability search exhausted its budget"
-                             else "no linearization found by the memoized search (complete search exhausted its budget)"))
+           | _ -> (false, "no linearization found (certificate search, complete search and memoized search exhausted their budgets)"))
       end in
     let arr = Array.of_list (List.map (fun (t, c, r, _, _) -> (t, int_of_n c, int_of_n r)) recs) in
     let overlaps = ref 0 in
